@@ -821,3 +821,32 @@ Proof.
   - rewrite <- (st_nls_split t1 t2). apply line_start_nls.
   - apply line_col_repr. exact Hc.
 Qed.
+
+(* ------------------------------------------------------------------------ *)
+(* byte_to_line_byte                                                        *)
+
+Lemma line_byte_repr c t off : repr c t -> off <= byte_len t ->
+  byte_to_line_byte c off =
+  Done (Some (nth (cle (nls_of t) off - 1) (nls_of t) 0)).
+Proof.
+  intros Hr Hoff. unfold byte_to_line_byte.
+  rewrite (line_num_repr c t off Hr Hoff). cbn [obind].
+  unfold line_num_to_byte. destruct Hr as [Hn _]. rewrite Hn.
+  pose proof (cle_nls_pos t off) as Hpos.
+  pose proof (cle_nls_le_length t off) as Hlen.
+  rewrite (proj2 (Nat.ltb_ge _ _)) by exact Hlen.
+  rewrite (proj2 (Nat.eqb_neq _ 0)) by lia. cbn [orb].
+  rewrite nth_checked_lt by lia. reflexivity.
+Qed.
+
+Lemma line_byte_spec : line_byte_spec_stmt.
+Proof.
+  intros text c off Hc Hoff. apply cache_of_repr in Hc.
+  eexists. split; [apply (line_byte_repr c text off Hc Hoff)|apply line_start_nls].
+Qed.
+
+Lemma line_byte_out_of_range : line_byte_out_of_range_stmt.
+Proof.
+  intros text c off Hc Hoff. unfold byte_to_line_byte.
+  rewrite (line_num_out_of_range text c off Hc Hoff). reflexivity.
+Qed.
